@@ -89,7 +89,6 @@ def handle(c):
     kinds = {}
     errs = {}
     dirty = True
-    tw_off = False
     n = spec['comps'][0]['n']
     for op in c['seq']:
         k = op['op']
@@ -152,11 +151,7 @@ def handle(c):
         j0 = j1 = None
         # derivative values are compared only at a clean state (the model has been run since the last set_val):
         # approximated totals at a state whose outputs are not the model's response to its inputs are not defined
-        tw = op.get('tw') if not (dirty or tw_off) else None
-        if k == 'coloring' and '' in spec.get('approx_groups', {}):
-            # FINDINGS.md observation 7 (unresolved): after an explicit total-coloring call on a model whose totals
-            # are approximated, derivative values are not compared any more in this scenario
-            tw_off = True
+        tw = op.get('tw') if not dirty else None
         if tw:
             try:
                 j0 = p.compute_totals(of=tw[0], wrt=tw[1], return_format='flat_dict')
@@ -170,7 +165,12 @@ def handle(c):
             err = e
             stats['query_errors'] += 1
             errs.setdefault('%s: %s: %s' % (k, type(e).__name__, str(e)[:100]), 0)
-        if j0 is not None and err is None:
+        if j0 is not None and err is None and snap(p)[2].tobytes() != b[2].tobytes():
+            # the query refreshed the residual vector (allowed: the property is about inputs and outputs), and the
+            # implementation's approximated derivatives use the stored residuals as their baseline (FINDINGS.md 8):
+            # derivative values are compared only across queries that leave all three vectors unchanged
+            stats['totals_pairs_residuals_changed'] = stats.get('totals_pairs_residuals_changed', 0) + 1
+        elif j0 is not None and err is None:
             try:
                 j1 = p.compute_totals(of=tw[0], wrt=tw[1], return_format='flat_dict')
             except Exception as e:   # noqa
